@@ -124,7 +124,7 @@ Qed.
     application refused is a violation in both *)
 Example going_down_oracle :
   let cut := [VRecv (Msg TInit 0 PayNone); VInit true; VSend SAck None; VSend SKa None;
-              VRecv (Msg TTerminate 0 PayNone);
+              VRecv (Msg TTerminate 0 PayNone); VBeginClose 1000;
               VRecv (Msg TStart 1 (PayDoc DQuery)); VStart 2 1 DQuery; VExec 2; VSend (SData 1 CErr) (Some 2)] in
   let behind_refused := [VRecv (Msg TInit 0 PayReject); VInit false; VSend SConnError None;
                          VRecv (Msg TStart 1 (PayDoc DQuery)); VStart 1 1 DQuery; VExec 1] in
@@ -143,3 +143,12 @@ Proof.
   eexists. split; [vm_compute; reflexivity|]. split; [exists [EFrame [RWaitCancel; RSend; RSend]; EAppClose]; vm_compute; reflexivity|]. split; [reflexivity|]. split; [reflexivity|].
   eexists. split; [vm_compute; reflexivity|]. split; reflexivity.
 Qed.
+
+(** a query dispatched after terminate: executed, answered with errors only; the same query before: its result *)
+Example cancelled_instance :
+  let ls := [LFrame (Msg TInit 0 PayNone); LFrame (Msg TStart 1 (PayDoc DQuery)); LFrame (Msg TTerminate 0 PayNone);
+             LFrame (Msg TStart 2 (PayDoc DQuery))] in
+  owned 1 (tr PWs ls) = [SData 1 (CRes 1); SComplete 1] /\ owned 3 (tr PWs ls) = [SData 2 CErr; SComplete 2] /\
+  count (is_exec 3) (tr PWs ls) = 1 /\ result_class (tr PWs ls) DQuery 3 = CErr /\ result_class (tr PWs ls) DQuery 1 = CRes 1 /\
+  spec_verdict PWs (tr PWs ls) = None.
+Proof. vm_compute. intuition. Qed.
